@@ -182,6 +182,7 @@ type panicOb struct {
 	Pos    token.Pos
 	By     string // non-empty when discharged automatically
 	Detail string
+	needs  func(rel string) bool // decides a guard relation at this site
 }
 
 // reviewedEntry discharges an obligation by a recorded reason.
@@ -189,6 +190,10 @@ type reviewedEntry struct {
 	Kind, Where, Expr string
 	Max               int // how many occurrences of this text the review covers (0 = 1)
 	Reason            string
+	// Needs lists guard relations the reason relies on ("a < b", "a != b",
+	// "f(x)", "!f(x)"); each must follow from the branch facts that dominate
+	// the construct, else the entry does not apply (the guard was removed).
+	Needs []string
 }
 
 type panicEngine struct {
@@ -199,6 +204,8 @@ type panicEngine struct {
 	units    int
 	bodies   int
 	reviewed []reviewedEntry
+	curNeeds func(pos token.Pos) func(string) bool
+	curInfo  *types.Info
 	graphs   map[*ast.BlockStmt]*FGraph
 	vinfos   map[*ast.BlockStmt]*varInfo
 	done     map[ast.Node]bool
@@ -378,6 +385,36 @@ func directLits(n ast.Node) []*ast.FuncLit {
 	return out
 }
 
+func (pe *panicEngine) needsAt(pos token.Pos, e ast.Node) func(string) bool {
+	if pe.curNeeds == nil {
+		return nil
+	}
+	base := pe.curNeeds(pos)
+	info := pe.curInfo
+	return func(rel string) bool {
+		// "arraylen>=N": the indexed/sliced operand is an array of at least N elements
+		if strings.HasPrefix(rel, "arraylen>=") {
+			want, err := strconv.ParseInt(strings.TrimPrefix(rel, "arraylen>="), 10, 64)
+			if err != nil || info == nil {
+				return false
+			}
+			var x ast.Expr
+			switch t := e.(type) {
+			case *ast.IndexExpr:
+				x = t.X
+			case *ast.SliceExpr:
+				x = t.X
+			}
+			if x == nil {
+				return false
+			}
+			n, ok := arrayLen(info.TypeOf(x))
+			return ok && n >= want
+		}
+		return base(rel)
+	}
+}
+
 func (pe *panicEngine) posKey(p token.Pos) string {
 	pp := pe.c.Fset.Position(p)
 	return pp.Filename + ":" + strconv.Itoa(pp.Line) + ":" + strconv.Itoa(pp.Column)
@@ -390,7 +427,7 @@ func (pe *panicEngine) add(kind, where string, e ast.Node, pos token.Pos, by, de
 	} else {
 		s = nodeStr(pe.c.Fset, e)
 	}
-	pe.obs = append(pe.obs, panicOb{Kind: kind, Where: where, Expr: s, Pos: pos, By: by, Detail: detail})
+	pe.obs = append(pe.obs, panicOb{Kind: kind, Where: where, Expr: s, Pos: pos, By: by, Detail: detail, needs: pe.needsAt(pos, e)})
 }
 
 func (pe *panicEngine) enumerate(info *types.Info, vi *varInfo, fg *FGraph, where string, self ast.Node, body *ast.BlockStmt) {
@@ -417,9 +454,16 @@ func (pe *panicEngine) enumerate(info *types.Info, vi *varInfo, fg *FGraph, wher
 		return true
 	})
 	factsFor := func(pos token.Pos) []Fact {
-		return fg.FactsAt(fg.NodeOf(pos))
+		return fg.FactsAtPos(pos)
 	}
 	pr := &prover{info: info, vi: vi, fg: fg, body: body}
+	pe.curNeeds = func(pos token.Pos) func(string) bool {
+		return func(rel string) bool {
+			return pr.holdsText(rel, fg.FactsAtPos(pos))
+		}
+	}
+	pe.curInfo = info
+	defer func() { pe.curNeeds = nil }()
 	divBy := func(y ast.Expr, pos token.Pos) string {
 		if by := pr.proveNonZero(y, factsFor(pos)); by != "" {
 			return by
@@ -601,6 +645,15 @@ func (pe *panicEngine) emit(r *Report, rule string, filter func(o panicOb) bool)
 					max = 1
 				}
 				if used[i] < max {
+					okNeeds := true
+					for _, nd := range re.Needs {
+						if o.needs == nil || !o.needs(nd) {
+							okNeeds = false
+						}
+					}
+					if !okNeeds {
+						continue
+					}
 					used[i]++
 					r.OK(ru, o.Where, o.Expr, pos, "reviewed: "+re.Reason)
 					done = true
@@ -658,7 +711,7 @@ func (pe *panicEngine) factsAtPos(p *packagesPkg, fd *ast.FuncDecl, pos token.Po
 	}
 	fg := pe.graphs[best]
 	pr := &prover{info: info, vi: pe.vinfos[best], fg: fg, body: best}
-	return pr, fg.FactsAt(fg.NodeOf(pos))
+	return pr, fg.FactsAtPos(pos)
 }
 
 // calleeGuard discharges a division whose divisor is parameter #k of a
@@ -786,4 +839,8 @@ func (pe *panicEngine) calleeGuard(info *types.Info, self ast.Node, divisor ast.
 		return ""
 	}
 	return fmt.Sprintf("callee-guard: the literal is only invoked by %s, whose %d call(s) of its parameter pass a divisor proven non-zero by a dominating guard", callee.FullName(), uses)
+}
+
+func rv(kind, where, expr string, max int, reason string, needs ...string) reviewedEntry {
+	return reviewedEntry{Kind: kind, Where: where, Expr: expr, Max: max, Reason: reason, Needs: needs}
 }
